@@ -681,6 +681,9 @@ EXPLANATION += (
 EXPLANATION += (
     ' R7: the name-keyed and id-keyed variants of every variable operation (define, assign, lookup, mutable lookup, environment walk) are compared pairwise - their sequences of semantic calls (scope walk and its direction, innermost-only or whole stack, promotion, slot hand-over, push) with arguments spelled out and every variable name erased must be identical; a one-sided change is reported whichever side it is on.'
 )
+EXPLANATION += (
+    " R8: the Assign arm looks for the existing entry of the innermost scope by name alone (one comparison in the search predicate, none on the value type). R9: inside the worklist loop of compute_function_reachability nothing reads a function's def_stmt - which functions are reachable follows the call graph, not the reachability of the defining statement (functions are hoisted)."
+)
 ASSUMPTIONS = ["the AST node address identifies the node (arena-allocated, never moved)"]
 TRUSTED = ["rustc nightly MIR", "nsx exporter", "nsverif edge-dominance"]
 NONTRIVIAL = "one obligation per keyed accessor call site, traversal, table, pairing and record/consume pair"
